@@ -20,4 +20,13 @@ CHECKS = {
             dict(name="TestC11Mutants", quick=dict(checks=60000, timeout=300), thorough=dict(checks=400000, shards=16, timeout=1500)),
             dict(name="FuzzC11", quick=dict(skip=True), thorough=dict(fuzz="300s", timeout=600, procs=16)),
         ]),
+    "C18": dict(
+        pkg="c18", level="exploration",
+        technique="property-based testing (rapid): generated server lists/files/filters vs. a set-semantics reference model, plus small-scope exhaustive enumeration",
+        level_text="Random lists (1..3000 entries, duplicates, host:port forms) through the comma, file and plug-in sources with generated /regex/ filters are compared, as sorted multisets and over three calls (time-seeded shuffle), with the set of distinct matching entries; every list up to a small length over a 3-word alphabet is enumerated completely.",
+        level_note="The /regex/ filter is only reachable through a discovery plug-in module (the shipped COMMA/FILE sources read the same string the filter is given in), so it is driven through the guarded VERIF module; empty entries ('a,,b') are outside the domain.",
+        tests=[
+            dict(name="TestC18Random", quick=dict(checks=4000, timeout=300), thorough=dict(checks=20000, shards=16, timeout=1500)),
+            dict(name="TestC18Exhaustive", quick=dict(timeout=300), thorough=dict(timeout=1500)),
+        ]),
 }
